@@ -389,7 +389,29 @@ func (e *Engine) intrinsic(f *ssa.Function, args []Val) (Val, bool) {
 	if !ok {
 		return nil, false
 	}
-	return h(e, f, args), true
+	r := h(e, f, args)
+	if r == notHandled {
+		return nil, false // the model does not apply to these arguments: interpret the body
+	}
+	return r, true
+}
+
+type notHandledT struct{}
+
+var notHandled Val = notHandledT{}
+
+// isStdin tells whether an io.Reader value is os.Stdin.
+func isStdin(v Val) bool {
+	i, ok := v.(If)
+	if !ok {
+		return false
+	}
+	p, ok := i.v.(*Val)
+	if !ok || p == nil {
+		return false
+	}
+	s, ok := (*p).(Str)
+	return ok && s == "os.Stdin"
 }
 
 type intrinsicFn func(e *Engine, f *ssa.Function, args []Val) Val
@@ -457,6 +479,18 @@ func init() {
 			return e.strIndexOf(a[0], a[1], true)
 		},
 		"strings.IndexByte": func(e *Engine, f *ssa.Function, a []Val) Val {
+			return e.strIndexOf(a[0], SStr{a[1].(Sc)}, false)
+		},
+		// assembly in the real build: first position of a byte in a byte slice / string
+		"internal/bytealg.IndexByte": func(e *Engine, f *ssa.Function, a []Val) Val {
+			cells := a[0].(Sl).a
+			b := make([]Sc, len(cells))
+			for i, c := range cells {
+				b[i] = c.(Sc)
+			}
+			return e.strIndexOf(mkStr(b), SStr{a[1].(Sc)}, false)
+		},
+		"internal/bytealg.IndexByteString": func(e *Engine, f *ssa.Function, a []Val) Val {
 			return e.strIndexOf(a[0], SStr{a[1].(Sc)}, false)
 		},
 		"strings.ReplaceAll": func(e *Engine, f *ssa.Function, a []Val) Val {
@@ -616,12 +650,22 @@ func init() {
 			return &z
 		},
 		"github.com/paulsonkoly/calc/types/node.Graphviz": func(e *Engine, f *ssa.Function, a []Val) Val { return nil },
+		// a bufio.Reader over os.Stdin is modelled (stream delivered in solver-chosen chunks); over
+		// any other reader the real bufio code is interpreted
 		"bufio.NewReader": func(e *Engine, f *ssa.Function, a []Val) Val {
+			if !isStdin(a[0]) {
+				return notHandled
+			}
 			var obj Val = &bufReader{}
 			return &obj
 		},
 		"(*bufio.Reader).ReadString": func(e *Engine, f *ssa.Function, a []Val) Val {
-			return e.readString(a[0], a[1].(Sc))
+			if p, ok := a[0].(*Val); ok && p != nil {
+				if _, ok := (*p).(*bufReader); ok {
+					return e.readString(a[0], a[1].(Sc))
+				}
+			}
+			return notHandled
 		},
 	}
 	delete(intrinsics, "(*github.com/paulsonkoly/calc/combinator.Error).Error")
